@@ -40,7 +40,10 @@ type item struct {
 	prefix []int32
 	sigs   []uint32
 	c      cost
+	plog   []string // debug: trace of the run that generated this item
 }
+
+var debugDiverge = os.Getenv("VERIF_DEBUG_DIVERGE") == "1"
 
 type key struct {
 	a, b uint64
@@ -100,6 +103,38 @@ func Explore(c *fw.Ctx, cfg Config, setup Setup) Stats {
 	if os.Getenv("VERIF_NOPRUNE") == "1" {
 		cfg.NoPrune = true
 	}
+	// determinism obligation: the default schedule executed twice must take the
+	// same decisions at the same points (otherwise some nondeterminism is not owned)
+	{
+		var prev []uint32
+		for try := 0; try < 2; try++ {
+			w := vs.NewWorld(nil, nil)
+			w.TimerChoices = cfg.T != 0
+			w.Horizon = cfg.Horizon
+			after := setup(w)
+			vs.MarkRunning(true)
+			w.Run()
+			vs.MarkRunning(false)
+			after(false)
+			var sigs []uint32
+			for _, p := range w.Points {
+				sigs = append(sigs, p.Sig)
+			}
+			w.Abort()
+			if try == 1 {
+				same := len(sigs) == len(prev)
+				for i := 0; same && i < len(sigs); i++ {
+					same = sigs[i] == prev[i]
+				}
+				if !same {
+					c.EngineError("schedx: the default schedule is not reproducible (unowned nondeterminism)")
+					st.Exhaustive = false
+					return st
+				}
+			}
+			prev = sigs
+		}
+	}
 	visited := map[key][]rem{}
 	stack := []item{{}}
 	first := true
@@ -119,6 +154,7 @@ func Explore(c *fw.Ctx, cfg Config, setup Setup) Stats {
 		w := vs.NewWorld(it.prefix, it.sigs)
 		w.TimerChoices = cfg.T != 0
 		w.Horizon = cfg.Horizon
+		w.Trace = debugDiverge
 		r := rem{remaining(cfg.P, it.c.p), remaining(cfg.T, it.c.t), remaining(cfg.E, it.c.e)}
 		if !cfg.NoPrune {
 			w.StopAt = func(w *vs.World) bool {
@@ -152,6 +188,23 @@ func Explore(c *fw.Ctx, cfg Config, setup Setup) Stats {
 		}
 		if w.Diverged != "" {
 			st.Diverged = w.Diverged
+			if debugDiverge {
+				fmt.Println("DIVERGED:", w.Diverged, "prefix", it.prefix)
+				for i := 0; i < len(it.plog) || i < len(w.Log); i++ {
+					a, b := "<end>", "<end>"
+					if i < len(it.plog) {
+						a = it.plog[i]
+					}
+					if i < len(w.Log) {
+						b = w.Log[i]
+					}
+					mark := "  "
+					if a != b {
+						mark = "!!"
+					}
+					fmt.Printf("%s %-60s | %s\n", mark, a, b)
+				}
+			}
 			c.EngineError("schedx: " + w.Diverged)
 			after(false)
 			w.Abort()
@@ -194,7 +247,11 @@ func Explore(c *fw.Ctx, cfg Config, setup Setup) Stats {
 				}
 				np[i] = int32(alt)
 				ns[i] = 0 // signature of a new branch is not known yet
-				children = append(children, item{np, ns, nc})
+				ch2 := item{prefix: np, sigs: ns, c: nc}
+				if debugDiverge {
+					ch2.plog = w.Log
+				}
+				children = append(children, ch2)
 			}
 		}
 		w.Abort()
